@@ -1,0 +1,64 @@
+//! Robotics expression evaluator hooks (robotics.rs, parse_scalars.rs::parse_yaml12_float).
+//!
+//! Add-only wrappers: evaluate a scalar text requested as a float with a tag class
+//! (codes in declaration order of `SfTag`, None = 0 … Other = 13) and the
+//! `angle_conversions` option on or off. Results are IEEE bit patterns.
+use crate::Location;
+use crate::parse_scalars as ps;
+use crate::tags::SfTag;
+
+/// Tag class for a protocol code (inverse of `scalars::tag_code`; unknown codes map to `Other`).
+pub(crate) fn tag_of(code: u8) -> SfTag {
+    match code {
+        0 => SfTag::None,
+        1 => SfTag::Int,
+        2 => SfTag::Float,
+        3 => SfTag::Bool,
+        4 => SfTag::Null,
+        5 => SfTag::Seq,
+        6 => SfTag::Map,
+        7 => SfTag::TimeStamp,
+        8 => SfTag::Binary,
+        9 => SfTag::String,
+        10 => SfTag::NonSpecific,
+        11 => SfTag::Degrees,
+        12 => SfTag::Radians,
+        _ => SfTag::Other,
+    }
+}
+
+/// `parse_yaml12_float::<f64>` exactly as `deserialize_f64` calls it.
+pub fn eval_f64(s: &str, tag: u8, angle_conversions: bool) -> Option<u64> {
+    ps::parse_yaml12_float::<f64>(s, Location::UNKNOWN, tag_of(tag), angle_conversions)
+        .ok()
+        .map(f64::to_bits)
+}
+
+/// `parse_yaml12_float::<f32>` exactly as `deserialize_f32` calls it.
+pub fn eval_f32(s: &str, tag: u8, angle_conversions: bool) -> Option<u32> {
+    ps::parse_yaml12_float::<f32>(s, Location::UNKNOWN, tag_of(tag), angle_conversions)
+        .ok()
+        .map(f32::to_bits)
+}
+
+/// The evaluator itself (`parse_yaml12_float_angle_converting::<f64>`), with the error message
+/// so that the harness can compare which check rejected the input.
+pub fn eval_expr_f64(s: &str, tag: u8) -> Result<u64, String> {
+    crate::robotics::parse_yaml12_float_angle_converting::<f64>(s, Location::UNKNOWN, tag_of(tag))
+        .map(f64::to_bits)
+        .map_err(err_msg)
+}
+
+/// Same for the `f32` instantiation (`v as f32` narrowing of the f64 result).
+pub fn eval_expr_f32(s: &str, tag: u8) -> Result<u32, String> {
+    crate::robotics::parse_yaml12_float_angle_converting::<f32>(s, Location::UNKNOWN, tag_of(tag))
+        .map(f32::to_bits)
+        .map_err(err_msg)
+}
+
+fn err_msg(e: crate::Error) -> String {
+    match e {
+        crate::Error::HookError { msg, .. } => msg,
+        other => format!("<other error: {other}>"),
+    }
+}
